@@ -120,6 +120,10 @@ def gen_e2e(ctx, rng):
         U = gen.gen_generic_matrix(rng, n, r, -4, 4); V = gen.gen_generic_matrix(rng, r, m, -4, 4)
         B = U @ V + gen.gen_generic_matrix(rng, n, m) * 2.0 ** (-e)
         ctx.count("e2e:nearly_low_rank")
+    if not graded and rng.random() < 0.2:
+        e = rng.choice([-70, -60, -52, -40, 40, 60])         # no magnitude is special
+        B = B * 2.0 ** e
+        ctx.count("e2e:scaled_2^%d" % e)
     A = np.array(QR().fit(B.copy()).get_sensors()).copy()
     L = sorted(rng.sample(range(n), rng.randint(0, n)))
     N = rng.randint(r + 1, k) if graded else rng.randint(1, k)
@@ -133,6 +137,8 @@ def gen_e2e(ctx, rng):
     meta = {"opt": opt, "N": N, "s": s, "L": L}
     if opt == "predetermined" and rng.random() < 0.4:
         meta["omit_all_sensors"] = True
+    if rng.random() < 0.35:
+        meta["np_ints"] = rng.choice([64, 32])
     return OptCase(B, "gqr", gqr=kw, meta=meta)
 
 
